@@ -60,7 +60,7 @@ theorem tempsOK_insert {r : Run V} {ts : Temps V} (h : TempsOK r ts) {id : Nat} 
 
 theorem tempsOK_store {r : Run V} {opId : Nat} {o : Op} (hnode : r.g.node opId = .op o) :
     ∀ (ids : List (Option Nat)) (vs : List V) (ts : Temps V),
-      (∀ i, i ∈ ids → i ∈ o.outputs) → TempsOK r ts → TempsOK r (storeOutputs opId ts ids vs) := by
+      (∀ i, i ∈ ids → i ∈ o.outputs) → TempsOK r ts → TempsOK r (storeOutputs r opId ts ids vs) := by
   intro ids
   induction ids with
   | nil => intro vs ts _ h; simpa [storeOutputs] using h
@@ -75,13 +75,15 @@ theorem tempsOK_store {r : Run V} {opId : Nat} {o : Op} (hnode : r.g.node opId =
         exact ih vs ts (fun i hi => hsub i (List.mem_cons_of_mem _ hi)) h
       | some id =>
         simp only [storeOutputs]
-        apply ih vs _ (fun i hi => hsub i (List.mem_cons_of_mem _ hi))
-        apply tempsOK_insert h
-        exact ⟨o, hnode, hsub _ List.mem_cons_self⟩
+        split
+        · exact ih vs ts (fun i hi => hsub i (List.mem_cons_of_mem _ hi)) h
+        · apply ih vs _ (fun i hi => hsub i (List.mem_cons_of_mem _ hi))
+          apply tempsOK_insert h
+          exact ⟨o, hnode, hsub _ List.mem_cons_self⟩
 
 theorem tempsOK_init (r : Run V) :
     ∀ (l : List (Nat × V)) (ts : Temps V), (∀ p, p ∈ l → p ∈ r.owned) → TempsOK r ts →
-      TempsOK r (initTemps ts l) := by
+      TempsOK r (initTemps r.g ts l) := by
   intro l
   induction l with
   | nil => intro ts _ h; simpa [initTemps] using h
@@ -89,9 +91,11 @@ theorem tempsOK_init (r : Run V) :
     intro ts hsub h
     obtain ⟨id, v⟩ := p
     simp only [initTemps]
-    apply ih _ (fun p hp => hsub p (List.mem_cons_of_mem _ hp))
-    apply tempsOK_insert h
-    exact hsub _ List.mem_cons_self
+    split
+    · exact ih _ (fun p hp => hsub p (List.mem_cons_of_mem _ hp)) h
+    · apply ih _ (fun p hp => hsub p (List.mem_cons_of_mem _ hp))
+      apply tempsOK_insert h
+      exact hsub _ List.mem_cons_self
 
 /-! ## The invariant -/
 
@@ -283,14 +287,14 @@ theorem step_inv (ops : Ops V) {r : Run V} {st : St V} (k opId : Nat) (h : Inv r
         · split
           · exact ⟨hrecs, htemps2, hcaps2⟩
           · rename_i outs _ _
-            have hst4 : TempsOK r (storeOutputs opId st2.temps o.outputs outs) :=
+            have hst4 : TempsOK r (storeOutputs r opId st2.temps o.outputs outs) :=
               tempsOK_store hnode _ _ _ (fun i hi => hi) htemps2
             have hd := decDeps_spec (V := V) r.usePool (opDeps o)
               { st2 with
                 recs := { step := k, op := opId,
                           inPlace := runInPlaceOk .code r st (candidates ops o st.temps),
                           takes := ipTakes ++ bvT } :: st2.recs,
-                temps := storeOutputs opId st2.temps o.outputs outs }
+                temps := storeOutputs r opId st2.temps o.outputs outs }
             refine ⟨?_, ?_, ?_⟩
             · rw [hd.recs]; exact hrecs
             · exact fun e he => hst4 e (hd.temps e he)
